@@ -362,3 +362,123 @@ Proof.
       - apply Forall_inv in IH. rewrite forallb_forall in Wf. rewrite Forall_forall in *. intros f Hf. apply IH; auto. }
     rewrite E. reflexivity.
 Qed.
+
+(* ---- every level of nesting costs at least one byte, so unfolding the owned enum
+   length+1 levels loses nothing: the executable decoder schema_de is complete ---- *)
+From PV Require Import WireFormat.
+Definition slen (s : schema) : nat := length (spec_enc (O s)).
+
+Lemma flat_map_len_ge {A} (f : A -> list byte) l x : In x l -> (length (f x) <= length (flat_map f l))%nat.
+Proof.
+  induction l as [|a r IH]; [intros []|]. cbn [flat_map]. rewrite app_length. intros [<-|H]; [lia|specialize (IH H); lia].
+Qed.
+Lemma fold_max_le (l : list nat) b : (forall x, In x l -> x <= b)%nat -> (fold_right Nat.max 0 l <= b)%nat.
+Proof. induction l as [|a r IH]; intros H; cbn [fold_right]; [lia|]. apply Nat.max_lub; [apply H; left; reflexivity|apply IH; intros x Hx; apply H; right; exact Hx]. Qed.
+
+Lemma varint_len_pos n : (1 <= length (spec_varint n))%nat.
+Proof. rewrite VarintFacts.spec_varint_unfold. destruct (n <? 128); cbn [length]; lia. Qed.
+
+Lemma O_option t : O (SOption t) = VVariant 18 (VNewtype (O t)). Proof. reflexivity. Qed.
+Lemma O_seq t : O (SSeq t) = VVariant 20 (VNewtype (O t)). Proof. reflexivity. Qed.
+Lemma O_tuple ts : O (STuple ts) = VVariant 21 (VNewtype (VSeq (map O ts))). Proof. reflexivity. Qed.
+Lemma O_map k v : O (SMap k v) = VVariant 22 (VStruct [O k; O v]). Proof. reflexivity. Qed.
+Lemma O_struct n k fs : O (SStruct n k fs) = VVariant 23 (VStruct [VStr n; Od k (map (fun f => (fst f, O (snd f))) fs)]).
+Proof. reflexivity. Qed.
+Lemma O_enum n vs :
+  O (SEnum n vs) = VVariant 24 (VStruct [VStr n; VSeq (map (fun v : list N * dkind * list (list N * schema) =>
+                     VStruct [VStr (fst (fst v)); Od (snd (fst v)) (map (fun f => (fst f, O (snd f))) (snd v))]) vs)]).
+Proof. reflexivity. Qed.
+
+Lemma data_len_ge k (fs : list (str * schema)) : data_wf k fs = true -> forall f, In f fs ->
+  (slen (snd f) + 1 <= length (spec_enc (Od k (map (fun f => (fst f, O (snd f))) fs))))%nat.
+Proof.
+  intros Hwf f Hf. unfold slen. destruct k.
+  - destruct fs; [destruct Hf|discriminate Hwf].
+  - destruct fs as [|[n s] [|? ?]]; try discriminate Hwf. destruct Hf as [<-|[]].
+    change (Od DNewtype (map (fun f => (fst f, O (snd f))) [(n, s)])) with (VVariant 1 (VNewtype (O s))).
+    cbn [spec_enc snd]. rewrite app_length. pose proof (varint_len_pos 1). lia.
+  - change (Od DTuple (map (fun f => (fst f, O (snd f))) fs))
+      with (VVariant 2 (VNewtype (VSeq (map snd (map (fun f : list N * schema => (fst f, O (snd f))) fs))))).
+    cbn [spec_enc]. rewrite !app_length. pose proof (varint_len_pos 2).
+    assert (length (spec_enc (O (snd f))) <= length (flat_map spec_enc (map snd (map (fun f : list N * schema => (fst f, O (snd f))) fs))))%nat; [|lia].
+    apply (flat_map_len_ge spec_enc _ (O (snd f))). rewrite map_map. cbn [snd]. apply (in_map (fun x => O (snd x))). exact Hf.
+  - change (Od DStruct (map (fun f => (fst f, O (snd f))) fs))
+      with (VVariant 3 (VNewtype (VSeq (map (fun f : list N * value => VStruct [VStr (fst f); snd f])
+                                             (map (fun f : list N * schema => (fst f, O (snd f))) fs))))).
+    cbn [spec_enc]. rewrite !app_length. pose proof (varint_len_pos 3). rewrite map_map. cbn [fst snd].
+    assert (length (spec_enc (O (snd f))) <= length (flat_map spec_enc (map (fun x : list N * schema => VStruct [VStr (fst x); O (snd x)]) fs)))%nat; [|lia].
+    eapply Nat.le_trans; [|apply (flat_map_len_ge spec_enc _ (VStruct [VStr (fst f); O (snd f)])); apply (in_map (fun x : list N * schema => VStruct [VStr (fst x); O (snd x)])); exact Hf].
+    cbn [spec_enc flat_map]. rewrite !app_length. lia.
+Qed.
+
+Theorem depth_lt_len : forall s, schema_wf s = true -> (depth s + 1 <= slen s)%nat.
+Proof.
+  induction s as [p|t IH|t IH|ts IH|k v IHk IHv|n k fs IH|n vs IH] using schema_ind'; intros Hwf; unfold slen in *.
+  - destruct p; vm_compute; lia.
+  - rewrite O_option. cbn [spec_enc depth]. rewrite app_length. pose proof (varint_len_pos 18). specialize (IH Hwf). lia.
+  - rewrite O_seq. cbn [spec_enc depth]. rewrite app_length. pose proof (varint_len_pos 20). specialize (IH Hwf). lia.
+  - rewrite O_tuple. cbn [spec_enc depth]. rewrite !app_length. pose proof (varint_len_pos 21).
+    pose proof (varint_len_pos (N.of_nat (length (map O ts)))) as Hp. unfold spec_len.
+    cbn [schema_wf] in Hwf. rewrite forallb_forall in Hwf.
+    assert (fold_right (fun t m => Nat.max (depth t) m) 0%nat ts <= length (flat_map spec_enc (map O ts)))%nat; [|lia].
+    clear Hp H. rewrite Forall_forall in IH.
+    assert (X : forall l : list schema, (forall t, In t l -> In t ts) ->
+                (fold_right (fun t m => Nat.max (depth t) m) 0%nat l <= length (flat_map spec_enc (map O ts)))%nat).
+    { induction l as [|a r IHl]; intros Hin; cbn [fold_right]; [lia|]. apply Nat.max_lub.
+      - specialize (IH a (Hin a (or_introl eq_refl)) (Hwf a (Hin a (or_introl eq_refl)))).
+        pose proof (flat_map_len_ge spec_enc (map O ts) (O a) (in_map O ts a (Hin a (or_introl eq_refl)))). lia.
+      - apply IHl. intros t Ht. apply Hin. right. exact Ht. }
+    apply X. auto.
+  - rewrite O_map. cbn [spec_enc depth flat_map]. rewrite !app_length. pose proof (varint_len_pos 22).
+    cbn [schema_wf] in Hwf. apply andb_prop in Hwf as [Wk Wv]. specialize (IHk Wk). specialize (IHv Wv). cbn [length]. lia.
+  - rewrite O_struct. cbn [spec_enc depth flat_map]. rewrite !app_length. pose proof (varint_len_pos 23).
+    pose proof (varint_len_pos (N.of_nat (length n))) as Hp. unfold spec_len. cbn [length].
+    cbn [schema_wf] in Hwf. apply andb_prop in Hwf as [Wd Wf]. rewrite forallb_forall in Wf. rewrite Forall_forall in IH.
+    assert (fold_right (fun f m => Nat.max (depth (snd f)) m) 0%nat fs
+            <= length (spec_enc (Od k (map (fun f => (fst f, O (snd f))) fs))))%nat; [|lia].
+    assert (X : forall l : list (list N * schema), (forall f, In f l -> In f fs) ->
+                (fold_right (fun f m => Nat.max (depth (snd f)) m) 0%nat l
+                 <= length (spec_enc (Od k (map (fun f => (fst f, O (snd f))) fs))))%nat).
+    { induction l as [|a r IHl]; intros Hin; cbn [fold_right]; [lia|]. apply Nat.max_lub.
+      - specialize (IH a (Hin a (or_introl eq_refl)) (Wf a (Hin a (or_introl eq_refl)))).
+        pose proof (data_len_ge k fs Wd a (Hin a (or_introl eq_refl))). unfold slen in *. lia.
+      - apply IHl. intros t Ht. apply Hin. right. exact Ht. }
+    apply X. auto.
+  - rewrite O_enum. cbn [spec_enc depth flat_map]. rewrite !app_length. pose proof (varint_len_pos 24).
+    pose proof (varint_len_pos (N.of_nat (length n))) as Hp. unfold spec_len. cbn [length]. rewrite ?app_nil_r, ?app_length.
+    cbn [schema_wf] in Hwf. rewrite forallb_forall in Hwf. rewrite Forall_forall in IH.
+    match goal with |- context [length (flat_map spec_enc ?L)] =>
+      assert (fold_right (fun (v : list N * dkind * list (list N * schema)) m =>
+                            Nat.max (fold_right (fun f m0 => Nat.max (depth (snd f)) m0) 0%nat (snd v)) m) 0%nat vs
+              <= length (flat_map spec_enc L))%nat; [|lia] end.
+    assert (X : forall l : list (list N * dkind * list (list N * schema)), (forall v, In v l -> In v vs) ->
+                (fold_right (fun v m => Nat.max (fold_right (fun f m => Nat.max (depth (snd f)) m) 0%nat (snd v)) m) 0%nat l
+                 <= length (flat_map spec_enc (map (fun v : list N * dkind * list (list N * schema) =>
+                       VStruct [VStr (fst (fst v)); Od (snd (fst v)) (map (fun f => (fst f, O (snd f))) (snd v))]) vs)))%nat).
+    { induction l as [|a r IHl]; intros Hin; cbn [fold_right]; [lia|]. apply Nat.max_lub; [|apply IHl; intros t Ht; apply Hin; right; exact Ht].
+      pose proof (Hin a (or_introl eq_refl)) as Ha. specialize (Hwf a Ha). apply andb_prop in Hwf as [Wd Wf]. rewrite forallb_forall in Wf.
+      specialize (IH a Ha). rewrite Forall_forall in IH.
+      eapply Nat.le_trans; [|apply (flat_map_len_ge spec_enc _ (VStruct [VStr (fst (fst a)); Od (snd (fst a)) (map (fun f => (fst f, O (snd f))) (snd a))]));
+                              apply (in_map (fun v : list N * dkind * list (list N * schema) =>
+                                               VStruct [VStr (fst (fst v)); Od (snd (fst v)) (map (fun f => (fst f, O (snd f))) (snd v))])); exact Ha].
+      cbn [spec_enc flat_map]. rewrite ?app_nil_r, ?app_length.
+      assert (Y : forall l' : list (list N * schema), (forall f, In f l' -> In f (snd a)) ->
+                  (fold_right (fun f m => Nat.max (depth (snd f)) m) 0%nat l'
+                   <= length (spec_enc (Od (snd (fst a)) (map (fun f => (fst f, O (snd f))) (snd a)))))%nat).
+      { induction l' as [|b r' IHl']; intros Hin'; cbn [fold_right]; [lia|]. apply Nat.max_lub; [|apply IHl'; intros t Ht; apply Hin'; right; exact Ht].
+        specialize (IH b (Hin' b (or_introl eq_refl)) (Wf b (Hin' b (or_introl eq_refl)))).
+        pose proof (data_len_ge (snd (fst a)) (snd a) Wd b (Hin' b (or_introl eq_refl))). unfold slen in *. lia. }
+      specialize (Y (snd a) (fun f H => H)). lia. }
+    apply X. auto.
+Qed.
+
+Theorem schema_de_complete s rest :
+  schema_ok s = true -> schema_wf s = true -> bytes_ok rest -> schema_de (enc (B s) ++ rest) = Ok (s, rest).
+Proof.
+  intros Hok Hwf Hr. unfold schema_de.
+  assert (Hd : (depth s < S (length (enc (B s) ++ rest)))%nat).
+  { pose proof (depth_lt_len s Hwf) as H. unfold slen in H. rewrite app_length, borrowed_is_owned.
+    destruct (enc_is_spec_aux _ _ (sval_has_type s (S (depth s)) Hok Hwf (Nat.lt_succ_diag_r _))) as [_ E]. rewrite E. lia. }
+  rewrite (owned_roundtrip s s _ rest (to_owned_id s) Hok Hwf Hd Hr). cbn [bind].
+  rewrite (read_back_sval s Hwf). reflexivity.
+Qed.
